@@ -324,7 +324,36 @@ func c10Styles(c *Ctx, F *model.Fields) {
 			}
 			R.Check(okJ, "C10.R3", key, "(*Policy).sanitizeStyles: attr.Val = "+A.Sym.Of(st.Val), pos, "strings.Join(kept, \"; \")", "the emitted style value is not rebuilt from the kept declarations only")
 		}
-		R.Role("C10.R3", "stores to attr.Val after the parse", n, 3)
+		R.Role("C10.R3", "stores to attr.Val after the parse", n, 1)
+		// every way from the parse to a return rewrites attr.Val (otherwise the unfiltered value would be returned)
+		storeBlk := map[*ssa.BasicBlock]bool{}
+		for _, st := range model.FieldStoresTo(attrAl, "Val") {
+			if parse.Block().Dominates(st.Block()) && st.Block() != parse.Block() {
+				storeBlk[st.Block()] = true
+			}
+		}
+		for _, b := range fn.Blocks {
+			if _, ok := b.Instrs[len(b.Instrs)-1].(*ssa.Return); !ok || !parse.Block().Dominates(b) {
+				continue
+			}
+			seen := map[*ssa.BasicBlock]bool{}
+			stack := []*ssa.BasicBlock{b}
+			uncovered := false
+			for len(stack) > 0 {
+				x := stack[len(stack)-1]
+				stack = stack[:len(stack)-1]
+				if seen[x] || storeBlk[x] {
+					continue
+				}
+				seen[x] = true
+				if x == parse.Block() {
+					uncovered = true
+					break
+				}
+				stack = append(stack, x.Preds...)
+			}
+			R.Check(!uncovered, "C10.R3", fmt.Sprintf("rewritten-before-return:b%s", b.Comment), "(*Policy).sanitizeStyles: paths from the parse to this return", c.P.Pos(lastPos(b)), "attr.Val is rewritten on every path", "a path returns the attribute without rebuilding its value from the kept declarations")
+		}
 		// parse error path stores ""
 		for _, b := range fn.Blocks {
 			ret, ok := b.Instrs[len(b.Instrs)-1].(*ssa.Return)
